@@ -5,4 +5,4 @@ PROP = "C03"
 run, search, replay = make(PROP, ('C03:',),
                            'Oracle C03: byte diff of the whole buffer restricted to the complement of the extents reserved during the operation; reported size vs reserved extent; nested parts inside the parent; siblings disjoint.',
                            [],
-                           ['extents of objects newly created for references are taken from the traced allocate() calls (tie + oracle), not from a theorem'])
+                           ['for nodes (static structs of scalars, Ref and UnionRef fields) the frame of every reference operation is a theorem (C03_ref_ops_frame / C03_ref_ops_disjoint); for references held in dynamic structs and arrays the extents of newly created objects are taken from the traced allocate() calls (tie + oracle)'], rg=True)
